@@ -33,6 +33,37 @@ def bwPrint (sep : Option Bytes) (st : BW) (buf : Bytes) : BW :=
 def outPar (sep : Option Bytes) (bufs : List Bytes) : Bytes :=
   (bufs.foldl (bwPrint sep) {}).out
 
+/-! ### the workers of `search_parallel` and the lock discipline
+
+Each worker owns one printer whose writer is a `termcolor::Buffer`.  The closure run for a file does
+`searcher.printer().get_mut().clear()`, searches (the printer appends the file's results to the buffer),
+and then `bufwtr.print(buffer)` — the only operation that touches stdout, atomic under the stdout lock.
+Between a worker's `clear+search` and its `print` any other worker may do anything. -/
+
+inductive Ev where
+  | search (w : Nat) (blk : Bytes)     -- worker `w`: `clear()`, then the search writes `blk` into its buffer
+  | print (w : Nat)                    -- worker `w`: `bufwtr.print(&buffer)`
+  deriving Repr, DecidableEq, Inhabited
+
+structure Par where
+  bw : BW := {}
+  bufs : Nat → Bytes := fun _ => []    -- the per-worker buffers
+
+def parStep (sep : Option Bytes) (st : Par) : Ev → Par
+  | .search w blk => { st with bufs := fun v => if v = w then blk else st.bufs v }
+  | .print w => { st with bw := bwPrint sep st.bw (st.bufs w) }
+
+/-- stdout after a schedule of worker events -/
+def outSched (sep : Option Bytes) (evs : List Ev) : Bytes :=
+  (evs.foldl (parStep sep) {}).bw.out
+
+/-- The buffers in the order in which they were printed: for each `print w`, what worker `w` searched last. -/
+def printed (evs : List Ev) (bufs : Nat → Bytes) : List Bytes :=
+  match evs with
+  | [] => []
+  | .search w blk :: rest => printed rest (fun v => if v = w then blk else bufs v)
+  | .print w :: rest => bufs w :: printed rest bufs
+
 /-! ### single-threaded: the printer owns the separator -/
 
 /-- The counting writer under the printer: `total_count()` = bytes ever written. -/
